@@ -175,11 +175,17 @@ def checkVerdict (lm : LinModel (Ext Rat)) (solver : String) (r : ImplRes (Ext R
     if declines variant then okS [.atom "declined", .atom variant]
     else if solver == "simplex" && variant == "Other" && msg.startsWith "Infesible" && sol.verdict matches .infeasible then
       viol "simplex-infeasible-reported-as-other" [.atom solver]
+    -- "the simplex-based solvers always reach one of these three verdicts … through the dedicated kinds"; the
+    -- interior-point path may give up (`Other("No progress")`, …): that is no verdict, hence not a wrong one
+    else if solver == "clarabel" then okS [.atom "no-verdict", .atom variant, tag]
     else viol "no-dedicated-verdict" [.atom solver, .atom variant, tag]
   | .hang, _ =>
     if microlpBased && flatFreeDirection p then viol "microlp-flat-free-direction" [.atom solver, .atom "hang", tag]
     else viol "hang" [.atom solver, tag]
-  | .panic, _ => viol "panic" [.atom solver, tag]
+  | .panic, _ =>
+    -- a panic is no verdict at all
+    if solver == "clarabel" && lm.vars.isEmpty then viol "clarabel-panic-no-variables" [.atom solver, tag]
+    else viol "panic" [.atom solver, tag]
 
 /-! ### C15 -/
 
